@@ -63,14 +63,17 @@ func main() {
 // specs
 
 type exch struct {
-	X string `json:"x"`           // exchange id, also the first label of its host
-	M string `json:"m"`           // GET | POST | CONNECT
-	B string `json:"b"`           // pass mutate reqerr reserr botherr skip hijackreq hijackres
-	O string `json:"o"`           // upstream outcome: ok dialfail drop none
-	N int    `json:"n,omitempty"` // POST body size
-	U bool   `json:"u,omitempty"` // a hijacking modifier leaves unflushed bytes in the bufio.Writer it was handed
-	A bool   `json:"a,omitempty"` // the request modifier also marks the exchange as an API request (Context.APIRequest)
-	E string `json:"e,omitempty"` // shape of the modifier error text: "" one line | multi (two errors joined by a line break) | quoted
+	X  string `json:"x"`            // exchange id, also the first label of its host
+	M  string `json:"m"`            // GET | POST | CONNECT
+	B  string `json:"b"`            // pass mutate reqerr reserr botherr skip hijackreq hijackres
+	O  string `json:"o"`            // upstream outcome: ok dialfail drop none
+	N  int    `json:"n,omitempty"`  // POST body size
+	S  string `json:"s,omitempty"`  // scheme of the absolute-form target of a plain proxied request ("" = http): ftp gopher vh-custom HTTP
+	NH string `json:"nh,omitempty"` // the request names no host at all: origin form without Host header, "10" = HTTP/1.0 keep-alive, "11" = HTTP/1.1 (skip exchanges on plain connections)
+	HE bool   `json:"he,omitempty"` // the hijacking modifier call also returns an error
+	U  bool   `json:"u,omitempty"`  // a hijacking modifier leaves unflushed bytes in the bufio.Writer it was handed
+	A  bool   `json:"a,omitempty"`  // the request modifier also marks the exchange as an API request (Context.APIRequest)
+	E  string `json:"e,omitempty"`  // shape of the modifier error text: "" one line | multi (two errors joined by a line break) | quoted
 }
 
 type connSpec struct {
@@ -138,10 +141,10 @@ func matrixCase(stream, tag string, idx int, flip bool) (c02Case, bool) {
 	conn := func(mode string, swapAt int, ex ...exch) {
 		for i := range ex {
 			ex[i].X = fmt.Sprintf("%sk%dc%de%d", tag, idx, ci, i)
-			if ex[i].B == "hijackreq" {
+			if ex[i].B == "hijackreq" || ex[i].B == "hijackres" {
 				ex[i].U = ex[i].U != flip
-			} else if ex[i].B == "hijackres" {
-				ex[i].U = ex[i].U != flip
+				// the hijacking call also returns an error on every other site
+				ex[i].HE = (ci+i)%2 == 0 != flip
 			}
 		}
 		c.Conns = append(c.Conns, connSpec{Mode: mode, Ex: ex, SwapAt: swapAt})
@@ -176,6 +179,11 @@ func matrixCase(stream, tag string, idx int, flip bool) (c02Case, bool) {
 		conn("connect", 0, g("pass", "ok"), cn("reserr", "ok"))
 		conn("connect", 0, cn("hijackres", "ok"))
 		conn("plain", 0, g("pass", "ok"), g("reqerr", "ok"))
+		// unusual but legal request spellings on a proxy connection
+		sch := func(e exch, s string) exch { e.S = s; return e }
+		nh := func(e exch, v string) exch { e.NH = v; return e }
+		conn("plain", 0, sch(g("pass", "ok"), "ftp"), sch(g("pass", "ok"), "HTTP"), sch(g("reserr", "ok"), "gopher"), sch(g("pass", "dialfail"), "vh-custom"))
+		conn("plain", 0, nh(g("skip", "none"), "10"), g("pass", "ok"), nh(g("skip", "none"), "11"))
 	case 5:
 		c.Swap, c.MITM = true, flip
 		conn("plain", 2, g("pass", "ok"), g("mutate", "ok"), g("pass", "ok"), g("reserr", "ok"))
@@ -317,6 +325,18 @@ func genCase(rng *rand.Rand, stream string, idx int, race bool) c02Case {
 			if strings.HasPrefix(cs.Ex[i].B, "hijack") && rng.Intn(2) == 0 {
 				cs.Ex[i].U = true
 			}
+			if strings.HasPrefix(cs.Ex[i].B, "hijack") && rng.Intn(2) == 0 {
+				cs.Ex[i].HE = true
+			}
+			if typeOf(cs, i) == "plain" && cs.Ex[i].M != "CONNECT" {
+				// unusual but legal spellings of a proxied request
+				switch x := rng.Intn(100); {
+				case cs.Ex[i].B == "skip" && x < 40:
+					cs.Ex[i].NH = []string{"10", "11"}[rng.Intn(2)]
+				case x < 25:
+					cs.Ex[i].S = []string{"ftp", "gopher", "vh-custom", "HTTP"}[rng.Intn(4)]
+				}
+			}
 		}
 		if c.Swap {
 			cs.SwapAt = rng.Intn(len(cs.Ex) + 1)
@@ -353,8 +373,16 @@ func render(e exch, typ string) string {
 	switch {
 	case e.M == "CONNECT":
 		fmt.Fprintf(&sb, "CONNECT %s:443 HTTP/1.1\r\nHost: %s:443\r\n", h, h)
+	case typ == "plain" && e.NH == "10":
+		fmt.Fprintf(&sb, "%s /%s HTTP/1.0\r\nConnection: keep-alive\r\n", e.M, e.X)
+	case typ == "plain" && e.NH == "11":
+		fmt.Fprintf(&sb, "%s /%s HTTP/1.1\r\n", e.M, e.X)
 	case typ == "plain":
-		fmt.Fprintf(&sb, "%s http://%s/%s HTTP/1.1\r\nHost: %s\r\n", e.M, h, e.X, h)
+		scheme := "http"
+		if e.S != "" {
+			scheme = e.S
+		}
+		fmt.Fprintf(&sb, "%s %s://%s/%s HTTP/1.1\r\nHost: %s\r\n", e.M, scheme, h, e.X, h)
 	default:
 		fmt.Fprintf(&sb, "%s /%s HTTP/1.1\r\nHost: %s\r\n", e.M, e.X, h)
 	}
@@ -411,6 +439,7 @@ func actionFor(e exch, srv *modx.SrvConn) *modx.Action {
 	a.ErrKind = e.E
 	a.API = e.A
 	a.Unflushed = e.U
+	a.HijackErr = e.HE
 	switch e.B {
 	case "mutate":
 		a.Mutate = true
@@ -857,6 +886,15 @@ func runCase(r *vh.Run, ca *modx.CA, c c02Case) {
 			}
 			if e.U {
 				r.Class(fmt.Sprintf("hijack-unflushed/%s/%s", xo.typ, e.B))
+			}
+			if e.HE {
+				r.Class(fmt.Sprintf("hijack-with-error/%s/%s", xo.typ, e.B))
+			}
+			if e.S != "" {
+				r.Class(fmt.Sprintf("target-scheme-%s/%s/%s", e.S, e.B, e.O))
+			}
+			if e.NH != "" {
+				r.Class(fmt.Sprintf("hostless-%s/%s", e.NH, e.B))
 			}
 			hij := strings.HasPrefix(e.B, "hijack")
 			if !hij && xo.cerr != nil {
